@@ -9,6 +9,7 @@ import (
 	"fmt"
 	"go/ast"
 	"go/types"
+	"os"
 	"strings"
 )
 
@@ -20,6 +21,7 @@ type flowOpts struct {
 	Require   bool     // the error must pass one of Through before it is returned
 	sanitised bool     // (internal) the value already passed one of Through
 	depth     int
+	visiting  map[string]bool // (internal) (node,var) pairs under evaluation: a cycle is accepted coinductively
 }
 
 type flowResult struct {
@@ -34,7 +36,7 @@ func (f *Flat) consumes(fi *FuncInfo, n *GNode, E types.Object, o flowOpts) (boo
 	if n.Ast == nil {
 		return false, ""
 	}
-	sig := fi.Obj.Type().(*types.Signature)
+	sig := fi.Sig()
 	viaAdapter := func(e ast.Expr) bool {
 		found := false
 		ast.Inspect(e, func(x ast.Node) bool {
@@ -161,6 +163,9 @@ func (f *Flat) consumes(fi *FuncInfo, n *GNode, E types.Object, o flowOpts) (boo
 	// sinks
 	if len(o.Sinks) > 0 {
 		for _, c := range callsIn(n.Ast, false) {
+			if os.Getenv("FSDBCHECK_DEBUG") != "" {
+				fmt.Println("DEBUG sink?", f.P.pos(c), f.P.calleeKeys(f.Pkg, c), o.Sinks)
+			}
 			if f.P.callIs(f.Pkg, c, o.Sinks...) {
 				for _, a := range c.Args {
 					if usesObj(info, a, E) {
@@ -180,6 +185,14 @@ func (f *Flat) consumes(fi *FuncInfo, n *GNode, E types.Object, o flowOpts) (boo
 // errorConsumed decides the flow obligation for the error held by E after node A.
 func (f *Flat) errorConsumed(fi *FuncInfo, A int, E types.Object, o flowOpts) flowResult {
 	info := f.Pkg.TypesInfo
+	if o.visiting == nil {
+		o.visiting = map[string]bool{}
+	}
+	vk := fmt.Sprintf("%d/%p", A, E)
+	if o.visiting[vk] {
+		return flowResult{OK: true}
+	}
+	o.visiting[vk] = true
 	st := f.ErrStatesFrom(A, E)
 	tol := map[string]bool{}
 	for _, t := range o.Tolerated {
@@ -196,8 +209,16 @@ func (f *Flat) errorConsumed(fi *FuncInfo, A int, E types.Object, o flowOpts) fl
 	// walk the region from A's successors
 	seen := map[int]bool{}
 	var work []int
+	flows := func(from, to int) bool {
+		for s := range st.along(from, to) {
+			if !tol[s] {
+				return true
+			}
+		}
+		return false
+	}
 	for _, e := range f.Nodes[A].Succs {
-		if inRegion(e.To) && !seen[e.To] {
+		if flows(A, e.To) && !seen[e.To] {
 			seen[e.To] = true
 			work = append(work, e.To)
 		}
@@ -206,6 +227,9 @@ func (f *Flat) errorConsumed(fi *FuncInfo, A int, E types.Object, o flowOpts) fl
 		id := work[len(work)-1]
 		work = work[:len(work)-1]
 		n := f.Nodes[id]
+		if os.Getenv("FSDBCHECK_DEBUG") != "" {
+			fmt.Println("DEBUG visit", id, f.P.pos(n.Ast), st.at(id))
+		}
 		if n.Ast != nil {
 			ok, why := f.consumes(fi, n, E, o)
 			if ok {
@@ -245,12 +269,13 @@ func (f *Flat) errorConsumed(fi *FuncInfo, A int, E types.Object, o flowOpts) fl
 			return flowResult{false, "the function ends while the error may be non-nil", ""}
 		}
 		for _, e := range n.Succs {
-			if inRegion(e.To) && !seen[e.To] {
+			if flows(id, e.To) && !seen[e.To] {
 				seen[e.To] = true
 				work = append(work, e.To)
 			}
 		}
 	}
+	_ = inRegion
 	return flowResult{OK: true}
 }
 
